@@ -4,7 +4,10 @@ import json, os
 HERE = os.path.dirname(os.path.dirname(os.path.abspath(__file__)))
 props = [json.loads(l) for l in open(os.path.join(HERE, "properties.jsonl"))]
 
-TB = ("trusted: pyvc (self-built VC generator + builtin models), z3/cvc5, the specification functions in /verif/contracts "
+TB = ("every check also re-verifies the callee contracts it applies (<prop>/dep:* obligations) and refuses to pass if an "
+      "obligation of the pinned tree is no longer generated (obligations.lock.json); thorough tier: every obligation "
+      "re-discharged by cvc5 and every path's witness replayed on the real code by CPython; "
+      "trusted: pyvc (self-built VC generator + builtin models), z3/cvc5, the specification functions in /verif/contracts "
       "(written from the property statement), CPython's execution of the package's metaclasses at import; "
       "ints are W-bit vectors with discharged no-overflow obligations, integer arguments range over [-2^(W-2), 2^(W-2))")
 
@@ -123,12 +126,14 @@ CLAIMED = {
          "membership equal to the request, and for short/int destinations ADD/REMOVE is yielded for a group exactly when "
          "needed (conditional yields merged by if-conversion, so no enumeration); one silence or framing error at any step, "
          "and every adversarial answer stream of length 1..5, ends in DALISequenceError or in data that is strictly ascending "
-         "and built from clean answers only, within a bounded number of commands.",
+         "and built from clean answers only, within a bounded number of commands; against answer streams of ANY length "
+         "QueryDeviceTypes is proved to terminate (loop variant 255 - last_seen) and to return only strictly ascending types "
+         "(loop invariant over two arbitrary positions).",
     design_ref="DESIGN.md 6 (C08), 3.7",
     technique="contract-based deductive verification: generators verified as procedures against an assumed unit contract, "
               "z3 QF_BV",
-    note=TB + "; unit contract contracts/units/gear102.py assumed; device-type list length bounded by 8, adversarial "
-         "prefixes by 5 (termination for unbounded adversarial streams undecided)"),
+    note=TB + "; unit contract contracts/units/gear102.py assumed; exact-result units: device-type list length up to 8, "
+         "adversarial prefixes up to 5; termination and ordering for streams of any length by the loop rule"),
  "C13": dict(
     category="proof",
     text="The real SetEventSchemes, SetEventFilters, QueryEventFilters and query_input_value generators are executed "
@@ -179,15 +184,23 @@ CLAIMED = {
          "contract (least random address m among the searching units, whether it is shared, next distinct address): it "
          "returns m when unique, 'clash' when shared, None when m > high, leaves the population unchanged, loads the search "
          "address with high, and terminates (recursive calls go through the function's own contract whose precondition "
-         "includes a strictly shrinking range). BOUNDED (not proved): the whole Commissioning sequence is driven natively "
-         "against the executable population contract for every population of <= 3 units, pre-existing addresses, five "
-         "permitted sets, both modes, dry run, two arbitrary draws per unit plus faulty units, checking distinct / permitted / "
-         "unused addresses, untouched non-participants, dry run, final TERMINATE and ProgramShortAddressFailure.",
+         "includes a strictly shrinking range). PROVED by the loop rule (three nested loop specifications, a bus that answers "
+         "every query arbitrarily, the permitted list seen through one arbitrary address K), for every population: K is "
+         "programmed at most once and only if it is permitted and was not found in use; every PROGRAM SHORT ADDRESS uses the "
+         "address taken from the list and is followed by VERIFY of the same address, an unconfirmed verification raises "
+         "ProgramShortAddressFailure and nothing more is sent; a dry run writes nothing; every found unit is withdrawn and the "
+         "search precondition is maintained; prologue, restart after a clash and the final TERMINATE have the prescribed "
+         "shape. BOUNDED (not proved): what the gear ends up holding - the whole sequence is driven natively against the "
+         "executable population contract for every population of <= 3 units, pre-existing addresses, five permitted sets, both "
+         "modes, dry run, two arbitrary draws per unit plus faulty units, checking distinct / permitted / unused stored "
+         "addresses and untouched non-participants.",
     design_ref="DESIGN.md 6 (C07)",
-    technique="contract-based deductive verification of _find_next (recursion via its own contract + variant), z3 QF_BV; "
-              "bounded exhaustive native execution for the Commissioning clauses (labelled bounded)",
-    note=TB + "; unit contracts contracts/units/addressing.py assumed; the Commissioning-level clauses are decided only by "
-         "the bounded stand-in (<= 3 units); termination of the restart loop under fairness is undecided"),
+    technique="contract-based deductive verification: _find_next (recursion via its own contract + variant) and the whole "
+              "Commissioning generator (loop rule with invariants, callee contract of _find_next), z3 QF_BV; bounded exhaustive "
+              "native execution for the stored end state (labelled bounded)",
+    note=TB + "; unit contracts contracts/units/addressing.py and the one-element view of the Python list (AddrList) assumed; "
+         "the stored end state of the gear is decided only by the bounded stand-in (<= 3 units); termination of the restart "
+         "loop under fairness is undecided"),
  "C03": dict(
     category="proof",
     text="An independently transcribed command table of IEC 62386 parts 102, 103, 202, 205, 206, 207, 209 (and 301/303/304, "
